@@ -142,8 +142,16 @@ fn skeleton() -> Document {
     for k in 0..130u32 {
         put(600 + k, r(600 + (k + 1) % 130));
     }
+    // acyclic graphs with massive sharing (2^64 root-to-leaf paths, 66 objects each): a name tree whose
+    // intermediate nodes list their only child twice, and outline items whose First and Next are the same item
+    for k in 0..64u32 {
+        put(800 + k, d(vec![("Kids", arr(vec![r(801 + k), r(801 + k)]))]));
+        put(900 + k, d(vec![("Title", lit("shared")), ("First", r(901 + k)), ("Next", r(901 + k)), ("Dest", arr(vec![r(4), name("Fit")]))]));
+    }
+    put(864, d(vec![("Names", arr(vec![lit("leaf"), arr(vec![r(4), name("Fit")])]))]));
+    put(964, d(vec![("Title", lit("last")), ("Dest", arr(vec![r(4), name("Fit")]))]));
     doc.objects = o;
-    doc.max_id = 729;
+    doc.max_id = 964;
     doc.trailer.set("Root", r(1));
     doc.trailer.set("Encrypt", r(35));
     doc.trailer.set("ID", arr(vec![lit("id1"), lit("id2")]));
@@ -246,7 +254,7 @@ fn slot<'a>(o: &'a mut Object, path: &[String]) -> Option<&'a mut Object> {
     }
 }
 
-const N_FIXED_SHAPES: usize = 44;
+const N_FIXED_SHAPES: usize = 48;
 
 /// Shapes 0..17 are fixed values; shape 100+k is a reference to skeleton object k.
 fn shape(code: usize, site: &Site) -> Option<Object> {
@@ -293,6 +301,11 @@ fn shape(code: usize, site: &Site) -> Option<Object> {
         41 => r(300 + 200 - 130),
         42 => r(300),
         43 => r(600),
+        // heavily shared acyclic graphs (see skeleton): as the value itself and one level down
+        44 => r(800),
+        45 => d(vec![("Dests", r(800)), ("Kids", arr(vec![r(800), r(800)]))]),
+        46 => r(900),
+        47 => d(vec![("First", r(900)), ("Last", r(964)), ("Count", Object::Integer(2)), ("Kids", arr(vec![r(900)]))]),
         k if k >= 200 => {
             // whole-stream replacement: plain content from the operator/operand menu
             let menu = content_menu();
@@ -661,6 +674,10 @@ fn shape_label(code: usize) -> String {
         37..=41 => format!("ref-chain-of-{}-hops", 126 + code - 37),
         42 => "ref-chain-of-200-hops".into(),
         43 => "ref-into-130-cycle".into(),
+        44 => "ref-to-shared-name-tree(2^64 paths)".into(),
+        45 => "<</Dests shared-name-tree /Kids [..]>>".into(),
+        46 => "ref-to-shared-outline-items(2^64 paths)".into(),
+        47 => "<</First shared-outline-items ..>>".into(),
         k if k >= 200 => format!("stream-content:{}", String::from_utf8_lossy(&content_menu()[(k - 200) % content_menu().len()])),
         k => format!("ref-to-obj{}", k - 100),
     }
@@ -740,7 +757,7 @@ fn main() {
     }
     run.rule(
         "well-formed skeleton document containing everything the queries read; a site is every dictionary entry / array element / whole object \
-         of the skeleton (superset of the keys the query code reads); 1 deviation: every site x 44 value shapes (incl. long strings with a multi-byte character around byte 64, reference chains of 126..130 and 200 hops, a 130-cycle) (also inserted under each of 22 query-relevant keys a dictionary lacks) (nine kinds, extremes, arrays, \
+         of the skeleton (superset of the keys the query code reads); 1 deviation: every site x 44 value shapes (incl. long strings with a multi-byte character around byte 64, reference chains of 126..130 and 200 hops, a 130-cycle, acyclic name trees / outline items with 2^64 paths through shared nodes) (also inserted under each of 22 query-relevant keys a dictionary lacks) (nine kinds, extremes, arrays, \
          dangling / cyclic / wrong-kind references, entry removed) plus every site x a reference to every object of the skeleton (all link cycles); \
          2 deviations (thorough): all pairs over the sites named by a key the query code reads; every case runs all 22 query groups in an isolated \
          worker; non-trivial = the mutation changes the skeleton (site exists); cases distinct by construction",
